@@ -2464,20 +2464,22 @@ def sequence_form(F, body, t, I=("i",)):
     `body` fills with exactly one push per turn (`for x in src { v.push(f(x)) }` reads as src.map(f)).  Returns
     (element at position I, set of length terms) or None."""
     t = clean(t)
-    pf = positional_form(F, t, I)
-    if pf is not None:
-        return proj_simplify(pf[0]), pf[1]
     base = t
     while base[0] == "call" and len(base[2]) == 1 and re.search(r"(::into_iter|::iter|::iter_mut|Iterator>?::(copied|cloned|collect)|::into_boxed_slice|::to_vec)$", base[1].split("{")[0]):
         base = base[2][0]
-    for e in elementwise_builds(body):
-        if e["form"] != "loop" or not e.get("sink", "").endswith("::push") or clean(e["sink_recv"]) != base:
-            continue
-        src = positional_form(F, clean(e["src"]), I)
-        if src is None or len(e["values"]) != 1:
-            continue
-        v = rewrite(clean(e["values"][0]), lambda y: src[0] if y == ("elem",) else None)
-        return proj_simplify(v), src[1]
+    # a vector that a loop of `body` fills (looked at first: read as a bare collection it would be an opaque sequence)
+    if base[0] == "call" and re.search(r"Vec::<T>::(new|with_capacity)$|^vec!$", base[1].split("{")[0]):
+        for e in elementwise_builds(body):
+            if e["form"] != "loop" or not e.get("sink", "").endswith("::push") or clean(e["sink_recv"]) != base:
+                continue
+            src = positional_form(F, clean(e["src"]), I)
+            if src is None or len(e["values"]) != 1:
+                continue
+            v = rewrite(clean(e["values"][0]), lambda y: src[0] if y == ("elem",) else None)
+            return proj_simplify(v), src[1]
+    pf = positional_form(F, t, I)
+    if pf is not None:
+        return proj_simplify(pf[0]), pf[1]
     return None
 
 
